@@ -378,3 +378,21 @@ def w_d54(rec):
 
 
 REPLAYERS["C02.D54"] = w_d54
+
+
+def r_len_of_value(rec):
+    """len_of_value on sequence values: a known length only when no member is unpacked, and then the member count"""
+    import itertools
+    from pyanalyze.implementation import len_of_value
+    from pyanalyze.value import KnownValue, SequenceValue, TypedValue
+    for n in range(0, 4):
+        for flags in itertools.product([False, True], repeat=n):
+            for typ in (tuple, list):
+                v = SequenceValue(typ, [(f, TypedValue(int)) for f in flags])
+                got = len_of_value(v)
+                if isinstance(got, KnownValue) and (any(flags) or got.val != n):
+                    return True, (f"len_of_value({v}) = {got}: " + ("an unpacked member stands for any number of elements, so no length is known" if any(flags) else f"the sequence has {n} members"))
+    return False, "len_of_value claims a known length only for sequences of single members"
+
+
+REPLAYERS["pyanalyze.implementation.len_of_value"] = r_len_of_value
